@@ -350,12 +350,16 @@ func (rr *AFSDB) parse(c *zlexer, o string) *ParseError {
 }
 
 func (rr *X25) parse(c *zlexer, o string) *ParseError {
-	l, _ := c.Next()
-	if l.err {
-		return &ParseError{err: "bad X25 PSDNAddress", lex: l}
+	// The PSDN address is a single <character-string>, quoted or not.
+	s, e := endingToTxtSlice(c, "bad X25 PSDNAddress")
+	if e != nil {
+		return e
 	}
-	rr.PSDNAddress = l.token
-	return slurpRemainder(c)
+	if len(s) != 1 {
+		return &ParseError{err: "bad X25 PSDNAddress"}
+	}
+	rr.PSDNAddress = s[0]
+	return nil
 }
 
 func (rr *KX) parse(c *zlexer, o string) *ParseError {
